@@ -110,6 +110,35 @@ pub fn run(ctx: &Ctx) -> Report {
 			total.count(&format!("{}_raw_decoy_valid", f.name()), r.states);
 			total.merge(r);
 		}
+		// IRI family: characters whose UTF-8 bytes are "high-bit twins" of the delimiters
+		// (0xA3 ~ '#', 0xBF ~ '?', 0xBA ~ ':', 0xAF ~ '/', 0xA5 ~ '%', 0xAE ~ '.', lead bytes
+		// 0xDB ~ '[', 0xDD ~ ']'): a scanner that masks or mis-compares bytes shows up here
+		if f == Family::Iri {
+			let twins: Vec<Vec<u8>> = ["a", ":", "/", "?", "#", "@", "£", "¿", "º", "¯", "¥", "®", "\u{6C0}", "\u{750}"].iter().map(|s| domains::b(s)).collect();
+			let shards = domains::raw_shard_count(twins.len());
+			let tn = ctx.pick(5usize, 6usize);
+			let r = run_shards(ctx, shards, |si| {
+				let mut r = Report::new();
+				let mut vs = Vec::new();
+				domains::for_each_raw(&twins, tn, si, |t| {
+					if !ref_valid(&d, f, Kind::RiRef, t) || t.is_ascii() {
+						return;
+					}
+					r.states += 1;
+					let e = by_family!(f, c02_case(t, &fr, &mut vs));
+					r.evaluations += e;
+					r.transitions += e;
+					for v in vs.drain(..) {
+						r.violate(v);
+					}
+				});
+				r.distinct_nontrivial = r.states;
+				r.traces = r.states;
+				r
+			});
+			total.count("iri_delimiter_twin_valid", r.states);
+			total.merge(r);
+		}
 		// REF
 		let dom = ref_domain(f, &fr, 1, ctx.pick(2, 3), ctx.pick(0, 1));
 		let shards = 64;
